@@ -35,6 +35,7 @@ type TLCRun struct {
 	Module     string            // MC module name (file Module.tla, config Module.cfg unless Cfg set)
 	Cfg        string            // optional cfg file name
 	Consts     map[string]string // optional: constants appended to a generated cfg (NAME = value)
+	NoPred     bool              // MC_E1 only: NeedPred = FALSE and no invariants over pred
 	ConstSubst map[string]string // optional: constant substitutions (NAME <- definition)
 	Workers    int
 	Timeout    time.Duration
@@ -229,6 +230,18 @@ func (r TLCRun) streamOne(par int, handle func(State)) (TLCStats, error) {
 		if _, ok := r.Consts["NParts"]; !ok {
 			r.Consts["NParts"] = "1"
 			r.Consts["Part"] = "0"
+		}
+		if r.Module == "MC_E1" {
+			// replayers that do not read the specification's denotation skip its computation
+			// (and the model-level invariants over it, which the checks that do read it run)
+			if r.NoPred {
+				r.Consts["NeedPred"] = "FALSE"
+				if r.Cfg == "" {
+					cfg = "MC_E1_nopred.cfg"
+				}
+			} else {
+				r.Consts["NeedPred"] = "TRUE"
+			}
 		}
 	}
 	if len(r.Consts) > 0 || len(r.ConstSubst) > 0 {
